@@ -67,7 +67,10 @@ def one(mid):
             row[p] = {"exit": pr.returncode, "violations": txt.count("\nVIOLATION ") + txt.startswith("VIOLATION "), "first_keys": keys[:3], "tail": txt[-400:] if pr.returncode == 2 else "",
                       "wall_s": round(time.time() - t0, 1)}
         with lock:
-            matrix[mid] = row
+            if OWN and isinstance(matrix.get(mid), dict) and "error" not in matrix[mid]:
+                matrix[mid].update(row)          # --own refreshes the own-check cell and keeps the cells of earlier --related runs
+            else:
+                matrix[mid] = row
             json.dump(matrix, open(out_path, "w"), indent=1, sort_keys=True)
         caught = [p for p in row if row[p]["exit"] == 1]
         print(mid, "caught by", caught, "inconclusive:", [p for p in row if row[p]["exit"] == 2], "of", len(row), flush=True)
